@@ -179,12 +179,17 @@ func buildOps() []*Op {
 	for _, op := range binOps {
 		op := op
 		mv := func(a, b *nm.Val) (nm.Expect, bool) { return nm.Binary(op, *a, *b), true }
-		sig := "a" + op + "b"
-		add(&Op{Name: "(%s " + op + " %s)", Sig: sig, Fam: "binary", Ar: 2, JS: fn("return a " + op + " b"), MV: mv, Deep: true})
-		for _, t := range targets {
-			add(&Op{Name: "(" + t.name + " x=%s; x" + op + "=%s; x)", Sig: sig, Fam: "compound", Ar: 2, JS: fn(t.pre + t.ref + " " + op + "= b; return " + t.ref), MV: mv})
+		var mn func(x, y float64) nm.Expect
+		if op != "+" {
+			mv = nil // every operator but + is a function of ToNumber(a), ToNumber(b)
+			mn = func(x, y float64) nm.Expect { return nm.Binary(op, nm.Num(x), nm.Num(y)) }
 		}
-		add(&Op{Name: "(x=%s, x" + op + "=%s)", Sig: sig, Fam: "compound", Ar: 2, JS: fn("var x=a; return (x " + op + "= b)"), MV: mv})
+		sig := "a" + op + "b"
+		add(&Op{Name: "(%s " + op + " %s)", Sig: sig, Fam: "binary", Ar: 2, JS: fn("return a " + op + " b"), MV: mv, MN: mn, Deep: true})
+		for _, t := range targets {
+			add(&Op{Name: "(" + t.name + " x=%s; x" + op + "=%s; x)", Sig: sig, Fam: "compound", Ar: 2, JS: fn(t.pre + t.ref + " " + op + "= b; return " + t.ref), MV: mv, MN: mn})
+		}
+		add(&Op{Name: "(x=%s, x" + op + "=%s)", Sig: sig, Fam: "compound", Ar: 2, JS: fn("var x=a; return (x " + op + "= b)"), MV: mv, MN: mn})
 	}
 	for _, op := range []string{"-", "+", "~"} {
 		op := op
@@ -263,6 +268,9 @@ func buildOps() []*Op {
 		if v, _ := nm.ParseInt(nm.ToStringUnits(a.m), 10); v == 0 && math.Signbit(v) {
 			return "text that parses to -0"
 		}
+		if v16, _ := nm.ParseInt(nm.ToStringUnits(a.m), 16); math.Abs(v16) >= 1<<63 {
+			return "digits denoting an integer of magnitude >=2^63"
+		}
 		return ""
 	}
 	add(&Op{Name: "parseInt(%s)", Sig: "parseInt", Fam: "number", Ar: 1, JS: fn("return parseInt(a)"), MV: func(a, _ *nm.Val) (nm.Expect, bool) { return parseI(a, nil) }, Deep: true, ClassA: parseIntClassA, ViaStr: true})
@@ -308,7 +316,7 @@ func buildOps() []*Op {
 	add(&Op{Name: "JSON.parse(JSON.stringify([+%s]))[0]", ViaStr: true, Fam: "json", Ar: 1, JS: fn("return JSON.parse(JSON.stringify([+a]))[0]"), MN: jsonNum})
 	add(&Op{Name: "JSON.parse(JSON.stringify({k:+%s})).k", ViaStr: true, Fam: "json", Ar: 1, JS: fn("return JSON.parse(JSON.stringify({k:+a})).k"), MN: jsonNum})
 	add(&Op{Name: "JSON.parse(%s)", ViaStr: true, Fam: "json", Ar: 1, JS: fn("return JSON.parse(a)"), MV: func(a, _ *nm.Val) (nm.Expect, bool) { return jsonParseModel(a) }, Deep: true})
-	add(&Op{Name: "JSON.parse('['+%s+']')[0]", Sig: "JSON.parse(_)", Fam: "json", Ar: 1, JS: fn("return JSON.parse('['+a+']')[0]"), MV: func(a, _ *nm.Val) (nm.Expect, bool) {
+	add(&Op{Name: "JSON.parse('['+%s+']')[0]", ViaStr: true, Sig: "JSON.parse(_)", Fam: "json", Ar: 1, JS: fn("return JSON.parse('['+a+']')[0]"), MV: func(a, _ *nm.Val) (nm.Expect, bool) {
 		if a.K != nm.String && a.K != nm.Number {
 			return nm.Expect{}, false
 		}
